@@ -4,6 +4,9 @@ C39 — specification side (core Lean only): what the property demands of *obser
 * `stepViolations`  : the arithmetic clauses applied to one observed `_update_next` step (old/new `_next_timeout`,
                       clock reading, period), with the rounding allowance `tol` the property grants for floats
                       (`tol = 0` gives the exact statements proved in Props.lean).
+* `schedViolations` : the same clauses applied to a deadline armed by the running machine, relative to the LATEST
+                      `start()` (grid origin = the clock at that call), so a restarted PeriodicCallback is judged
+                      against its new grid.
 * `agrees`          : "the observed float result is the exact result up to rounding" (second tie).
 * `traceViolations` : the two behavioural clauses on an observed start/finish trace:
                       no invocation starts while another is in flight; none starts between `stop` and `start`
@@ -43,6 +46,20 @@ def stepViolations (o : Obs) : List String :=
   (if o.next ≤ o.now then
      (if o.next' ≤ o.now + p * (1 + absR o.jitter / 2) + tolJ then [] else ["one_period_ahead"])
    else [])
+
+/-- The scheduling clauses applied to one deadline `d` armed by a live PeriodicCallback, relative to the **latest**
+`start()`: `start` = the clock at that `start()` call, `now` = the clock when the deadline was armed (the machine's
+clock never goes backwards, so "at most one period ahead" applies unconditionally), `prev` = the deadline armed before
+it since that `start()`.  Exact arithmetic (dyadic machine runs). -/
+def schedViolations (callbackTime start now d : Rat) (prev : Option Rat) : List String :=
+  let p := callbackTime / 1000
+  let k := roundR ((d - start) / p)
+  (match prev with
+   | some q => if q < d then [] else ["later"]
+   | none => []) ++
+  (if 1 ≤ k ∧ d = start + (k : Rat) * p then [] else ["grid"]) ++
+  (if now ≤ d then [] else ["not_before_now"]) ++
+  (if d ≤ now + p then [] else ["one_period_ahead"])
 
 /-- "for any period of at least a microsecond": the constructor must accept it (`obs = none`: it raised).  Whether
 the object then *uses* the requested period is demanded by `stepViolations` evaluated with the requested period. -/
